@@ -91,6 +91,32 @@ class Seq:
             if r.random() < 0.3:
                 lab = [b + " per month" for b in base]
         f = self.Food(vals[0], vals[1], vals[2], lab[0], lab[1], lab[2])
+        form = r.random()
+        if form < 0.15:
+            # the documented short forms of the constructor: nutrients left out default to zero, in the shape of the calories
+            lists = series and r.random() < 0.5
+            kc = list(vals[0]) if lists else vals[0]
+            which = r.choice(["kcals_only", "kcals_fat", "kcals_only_units", "keywords"])
+            if which == "kcals_only":
+                f = self.Food(kc)
+                want = ["billion kcals", "thousand tons", "thousand tons"]
+            elif which == "kcals_fat":
+                f = self.Food(kcals=kc, fat=list(vals[1]) if lists else vals[1])
+                want = ["billion kcals", "thousand tons", "thousand tons"]
+            elif which == "kcals_only_units":
+                f = self.Food(kcals=kc, kcals_units=lab[0])
+                want = [strip(strip([lab[0]]), " per month")[0] if False else lab[0].replace(" each month", ""), "thousand tons", "thousand tons"]
+            else:
+                f = self.Food(protein=vals[2], kcals=kc, fat=vals[1], protein_units=lab[2], kcals_units=lab[0], fat_units=lab[1])
+                want = [x.replace(" each month", "") for x in lab]
+            if series:
+                want = [w + " each month" for w in want]
+            self.ops["new_short_form:" + which] += 1
+            self.ops["new_short_form"] += 1
+            self.check_result("new_short_form(%s%s)" % (which, ",lists" if lists else ""), f, want, series, [], [])
+            if is_series(f) and not (len(f.fat) == len(f.kcals) == len(f.protein)):
+                self.bad("result_shape_wrong", "short-form construction %s: nutrient series of different lengths" % which, op="new_short_form")
+            return f
         if series and r.random() < 0.3:
             # construction takes the numbers, not the caller's storage: an in-place write to the quantity stays in it
             keep = [v.copy() for v in vals]
@@ -440,7 +466,7 @@ def summarize(cases, records, tier):
         "samples": [{"trace_head": r["obs"]["trace_head"]} for r in seqs[:3]] or [{"note": "none"}],
         "operations_by_kind": dict(ops), "refusals_by_kind": dict(ref), "predicate_comparisons": int(comps), "sequences": len(seqs),
     }
-    for need in ("add", "mul_food", "get_month", "in_units", "in_units_of_derived", "mismatch", "getitem_int", "getitem_slice", "sum", "resetting", "converted_values_checked", "write_to_result:set_to_zero_after_month", "write_to_result:setitem", "write_to_result:constructed"):
+    for need in ("add", "mul_food", "get_month", "in_units", "in_units_of_derived", "mismatch", "getitem_int", "getitem_slice", "sum", "resetting", "new_short_form", "converted_values_checked", "write_to_result:set_to_zero_after_month", "write_to_result:setitem", "write_to_result:constructed"):
         if ops.get(need, 0) == 0:
             cov["inconclusive_reason"] = "operation never exercised: " + need
     if comps == 0:
